@@ -136,7 +136,11 @@ func CheckC12(run *ev.Run) {
 	}
 	disagreements := 0
 	validChecked, validOK := 0, 0
+	crashes := 0
 	handle := func(s *Sample) {
+		if crashes >= 6 {
+			return // the implementation keeps crashing or hanging: the violation is already recorded with its input
+		}
 		s.render()
 		model, real, verdict := lab.Compare(s.A, s.B, s.JA, s.JB)
 		run.Traces++
@@ -162,7 +166,8 @@ func CheckC12(run *ev.Run) {
 		case real.R == "panic" || real.R == "crash" || real.R == "timeout":
 			k := PanicKey(real.Why)
 			if real.R != "panic" {
-				k = real.R + ":diff.Compare"
+				k = "crash-or-hang:diff.Compare"
+				crashes++
 			}
 			if run.IsKnown(k) || lab.validBoth(s) {
 				st["oracle:"+k]++
